@@ -103,12 +103,16 @@ def drive(g, tid=0, seed=0):
             rows = [list(r) for r in res[0]] if res is not None else []
         except Exception:
             rows = []
-        for x in rows[:40]:
+        for xi, x in enumerate(rows[:40]):
+            inst = None
             for m in ('complete', 'partial', 'nan'):
                 mode['m'] = m
                 ee = {'e': 'Eval', 'mode': m, 'err': '', 'nodes': [], 'given': [], 'obj': [], 'con': [], 'stored': []}
                 try:
-                    inst, _, _ = p.get_graph(x)
+                    # every second architecture: the SAME instance is evaluated three times (complete, partial, NaN maps),
+                    # what it stores afterwards must be what the last evaluation gave
+                    if inst is None or xi % 2 == 0:
+                        inst, _, _ = p.get_graph(x)
                     ov, cv = p.evaluate(inst)
                     ee['nodes'] = sorted(b.inv[n] for n in inst.graph.nodes if n in b.inv)
                     ee['given'] = sorted([k, val(v)] for k, v in given.items())
